@@ -248,6 +248,7 @@ func (t *T) Do(desc func() string, check func() *Fail) {
 	atomic.AddInt64(&t.states, 1)
 	atomic.AddInt64(&t.trans, 1)
 	f := t.safe(check)
+	atomic.AddInt64(&progress, 1)
 	if f != nil {
 		t.fail(desc(), f, check)
 	} else {
@@ -270,6 +271,7 @@ func (t *T) DoN(n int64, desc func() string, check func() *Fail) {
 	atomic.AddInt64(&t.states, n)
 	atomic.AddInt64(&t.trans, n)
 	f := t.safe(check)
+	atomic.AddInt64(&progress, 1)
 	if f != nil {
 		t.fail(desc(), f, check)
 	} else {
@@ -520,6 +522,7 @@ func (t *T) Explore(desc string, opts ExploreOpts, run func(c *Chooser) *Fail) (
 		c := &Chooser{prefix: prefix, t: t, keys: keys, useKeys: opts.UseKeys}
 		f := t.exec(c, run)
 		execs++
+		atomic.AddInt64(&progress, 1)
 		atomic.AddInt64(&t.evals, 1)
 		atomic.AddInt64(&t.trans, int64(len(c.choices)-len(prefix))+1)
 		if d := int64(len(c.choices)); d > atomic.LoadInt64(&t.maxDepth) {
@@ -698,9 +701,60 @@ func Main(prop string, register func(r *Run)) {
 	// pooled objects are never shared between the parallel workers of a sequential check and
 	// are poisoned when the library puts them back (C17/C18/C19 select their own modes)
 	vsync.SetMode(vsync.FreshPoison)
+	go r.watchdog(*tier)
 	register(r)
 	code := r.finish(!*noEvidence)
 	os.Exit(code)
+}
+
+// progress is bumped by every completed case / execution of the running part.
+var progress int64
+
+// watchdog turns a check that stops making progress into a reported violation instead of a
+// process that has to be killed from outside: if no case completes for a long time (5 min
+// quick, 15 min thorough; single cases take micro- to milliseconds) some call into the
+// library does not return. The goroutine dump names the function that is spinning.
+func (r *Run) watchdog(tier string) {
+	limit := 5 * time.Minute
+	if tier == "thorough" {
+		limit = 15 * time.Minute
+	}
+	last := atomic.LoadInt64(&progress)
+	lastChange := time.Now()
+	for {
+		time.Sleep(5 * time.Second)
+		cur := atomic.LoadInt64(&progress)
+		if cur != last {
+			last, lastChange = cur, time.Now()
+			continue
+		}
+		if time.Since(lastChange) < limit {
+			continue
+		}
+		buf := make([]byte, 1<<20)
+		n := runtime.Stack(buf, true)
+		dump := string(buf[:n])
+		site := "unknown"
+		for _, l := range strings.Split(dump, "\n") {
+			if strings.HasPrefix(l, "github.com/gobwas/ws") {
+				site = strings.TrimPrefix(l, "github.com/gobwas/")
+				if j := strings.LastIndex(site, "("); j > 0 {
+					site = site[:j]
+				}
+				break
+			}
+		}
+		r.mu.Lock()
+		r.violations["hang:"+site] = &violation{Part: "(watchdog)", Sig: "hang:" + site, Case: "no case completed for " + limit.String(),
+			Detail: "a call into the library does not return; goroutines:\n" + firstLines(dump, 60), Count: 1}
+		r.parts = append(r.parts, &partStats{Name: "(interrupted by watchdog)", Evaluations: cur, States: 1, Transitions: 1, Exhaustive: false, Caps: []string{"hang"}})
+		r.mu.Unlock()
+		code := r.finish(true)
+		if code == 0 {
+			code = 1
+		}
+		os.Exit(code)
+	}
 }
 
 func (r *Run) finish(writeEvidence bool) int {
@@ -889,3 +943,6 @@ func Hang(what string, d time.Duration, fn func()) *Fail {
 	hangMu.Unlock()
 	return &Fail{Sig: "hang:" + what, Detail: fmt.Sprintf("no return within %v (and within %v on a second attempt): the call loops without consuming input", d, 2*d), Sampled: true}
 }
+
+// Progress lets a harness that waits on a subprocess tell the watchdog that work is going on.
+func Progress() { atomic.AddInt64(&progress, 1) }
